@@ -35,28 +35,45 @@ def atomic_sort(eng, path):
     raise Unsupported(f"atomic type of {path}")
 
 
+def _is_local(p):
+    return isinstance(p, Ptr) and p.root[0] == "local"
+
+
+def m_atomic_new(eng, ctx, f, path, args, dty):
+    return args[0]
+
+
 def m_atomic_load(eng, ctx, f, path, args, dty):
+    if _is_local(args[0]):
+        return eng.load_ptr(ctx, args[0])
     o, p = atomic_loc(eng, ctx, args[0])
     v = ctx.mem_read(o, p, atomic_sort(eng, path), True, order_name(args[1]), "load")
-    ctx.last.site = True
+    ctx.mark_site()
     return v
 
 
 def m_atomic_store(eng, ctx, f, path, args, dty):
+    if _is_local(args[0]):
+        eng.store_ptr(ctx, args[0], args[1])
+        return UNIT
     o, p = atomic_loc(eng, ctx, args[0])
     s = atomic_sort(eng, path)
     ctx.mem_write(o, p, s, eng.to_scalar(args[1], s), True, order_name(args[2]), "store")
-    ctx.last.site = True
+    ctx.mark_site()
     return UNIT
 
 
 def _rmw(name, fn):
     def h(eng, ctx, f, path, args, dty):
-        o, p = atomic_loc(eng, ctx, args[0])
         s = atomic_sort(eng, path)
+        if _is_local(args[0]):
+            old = eng.load_ptr(ctx, args[0])
+            eng.store_ptr(ctx, args[0], fn(old, eng.to_scalar(args[1], s)))
+            return old
+        o, p = atomic_loc(eng, ctx, args[0])
         v = eng.to_scalar(args[1], s)
         r = ctx.mem_rmw(o, p, s, lambda old: fn(old, v), None, order_name(args[2]), name)
-        ctx.last.site = True
+        ctx.mark_site()
         return r
     return h
 
@@ -67,7 +84,7 @@ def m_cas(eng, ctx, f, path, args, dty):
     cur = eng.to_scalar(args[1], s)
     new = eng.to_scalar(args[2], s)
     old = ctx.mem_rmw(o, p, s, lambda old: new, lambda old: old == cur, order_name(args[3]), "cas", forder=order_name(args[4]))
-    ctx.last.site = True
+    ctx.mark_site()
     ok = old == cur
     return Fork([(ok, Enum(0, {0: Agg({0: old})}, "Result")), (z3.Not(ok), Enum(1, {1: Agg({0: old})}, "Result"))])
 
@@ -99,7 +116,7 @@ def m_fetch_update(eng, ctx, f, path, args, dty):
         raise Unsupported("fetch_update closure may return None: not modelled")
     newv = r.v[1].f[0]
     got = ctx.mem_rmw(o, p, s, lambda x: z3.substitute(newv, (old, x)), None, order_name(args[1]), "fetch_update")
-    ctx.last.site = True
+    ctx.mark_site()
     return Enum(0, {0: Agg({0: got})}, "Result")
 
 
@@ -113,7 +130,7 @@ def m_ptr_write(eng, ctx, f, path, args, dty):
     before = ctx.last
     eng.store_ptr(ctx, args[0], args[1], ty)
     if ctx.last is not before:
-        ctx.last.site = True
+        ctx.mark_site()
     return UNIT
 
 
@@ -123,7 +140,7 @@ def m_ptr_read(eng, ctx, f, path, args, dty):
     before = ctx.last
     r = eng.load_ptr(ctx, args[0], ty)
     if ctx.last is not before:
-        ctx.last.site = True
+        ctx.mark_site()
     return r
 
 
@@ -200,6 +217,7 @@ def m_option_copied(eng, ctx, f, path, args, dty):
 
 
 BASE = {
+    r"Atomic\w*::new$": m_atomic_new,
     r"^Result::is_ok$": _is_variant(0),
     r"^Result::is_err$": _is_variant(1),
     r"^Option::is_some$": _is_variant(1),
